@@ -74,7 +74,7 @@ func inject(rng *rand.Rand, state *e2e.Repo, kind string) (injection, bool) {
 		for _, b := range state.Targets {
 			for l := range state.Closure(b.Label()) {
 				a := state.Target(l)
-				if a != b && a.Kind == "genrule" {
+				if a != nil && a != b && a.Kind == "genrule" {
 					cands = append(cands, [2]*e2e.Target{a, b})
 				}
 			}
@@ -113,7 +113,7 @@ var kinds = []string{"none", "exit1", "exit1", "missingout", "syntax-error", "un
 func TestC05(t *testing.T) {
 	r := lib.Start("C05")
 	defer lib.End(t, r)
-	r.Rule = "case = one `plz build` invocation on a generated repository with one injected failure kind (or none), request //... or a single target (inside or outside the failing region), --keep_going on/off, -n in {1,4,16}, delay injection at scheduler hook points, a third of the cases on the race-built binary; distinct by (repository, request, flags); non-trivial = a failure was injected and at least one command still ran"
+	r.Rule = "case = one `plz build` invocation on a generated repository with one injected failure kind (or none; a third of the failing cases get a second, different failure elsewhere in the repository), request //... or a single target (inside or outside the failing region), --keep_going on/off, -n in {1,4,16}, delay injection at scheduler hook points, a third of the cases on the race-built binary; distinct by (repository, request, flags); non-trivial = a failure was injected and at least one command still ran"
 	r.Assumes = []string{"expected exit class comes from reachability on the generated graph; exit codes are only classed zero / non-zero", "bounded time is decided as: not quiescent-hung when a 120 s watchdog fires (cycle detection legitimately waits 5 s); a busy process at the watchdog is inconclusive"}
 	n := r.Pick(120, 4000)
 	cycleBudget := n / 5
@@ -138,6 +138,25 @@ func TestC05(t *testing.T) {
 		if !ok {
 			inj, _ = inject(rng, state, "none")
 		}
+		// A third of the failing cases get a second, different failure elsewhere in the same repository
+		// (e.g. a failing command plus an unrelated dependency cycle): the two must not mask each other.
+		injs := []injection{inj}
+		if inj.Kind != "none" && inj.Kind != "bad-request" && inj.Kind != "defs-fail" && rng.Intn(3) == 0 {
+			second := []string{"exit1", "missingout", "undefined-dep", "missing-package", "cycle", "syntax-error"}[rng.Intn(6)]
+			if second == "cycle" && i%5 != 0 {
+				second = "exit1"
+			}
+			if second != inj.Kind {
+				if inj2, ok2 := inject(rng, state, second); ok2 {
+					injs = append(injs, inj2)
+					inj.Kind += "+" + inj2.Kind
+					inj.Detail += " ; " + inj2.Detail
+					inj.Failed = append(inj.Failed, inj2.Failed...)
+					sort.Strings(inj.Failed)
+					r.Obs("double_injections", 1)
+				}
+			}
+		}
 		failed := map[string]bool{}
 		for _, l := range inj.Failed {
 			failed[l] = true
@@ -161,11 +180,13 @@ func TestC05(t *testing.T) {
 					expectFail = true
 				}
 			}
-			if inj.Kind == "syntax-error" && tg.Pkg == inj.Detail {
-				expectFail = true
-			}
-			if inj.Kind == "defs-fail" {
-				expectFail = true
+			for _, one := range injs {
+				if one.Kind == "syntax-error" && tg.Pkg == one.Detail {
+					expectFail = true
+				}
+				if one.Kind == "defs-fail" {
+					expectFail = true
+				}
 			}
 		}
 		keepGoing := rng.Intn(2) == 0
@@ -218,8 +239,10 @@ func TestC05(t *testing.T) {
 				if dependsOnFailed(state, failed, tg.Label()) {
 					r.Violation("ran-after-failed-dependency/"+inj.Kind, fmt.Sprintf("command of %s ran although a dependency cannot be built (%s %s)", tg.Label(), inj.Kind, inj.Detail), wit, i)
 				}
-				if (inj.Kind == "undefined-dep" || inj.Kind == "missing-package") && tg.Label() == inj.Detail {
-					r.Violation("ran-with-unresolvable-dependency/"+inj.Kind, fmt.Sprintf("command of %s ran although one of its declared dependencies does not exist", tg.Label()), wit, i)
+				for _, one := range injs {
+					if (one.Kind == "undefined-dep" || one.Kind == "missing-package") && tg.Label() == one.Detail {
+						r.Violation("ran-with-unresolvable-dependency/"+inj.Kind, fmt.Sprintf("command of %s ran although one of its declared dependencies does not exist", tg.Label()), wit, i)
+					}
 				}
 			}
 		}
